@@ -6,6 +6,8 @@ CONSTANTS
   ApplyFilter = "none"
   SyncedAfter = TRUE
   SnapHasSynced = TRUE
+  Pipelined = FALSE
+  MaxInstall = 1
   MaxLog = 5
   MaxRestart = 2
 INVARIANTS RemoteExactlyOnce SyncedAfterEffect SyncedExact SyncedMonotone SyncedSurvivesRestart
